@@ -9,6 +9,8 @@ scenarios:
              available_parallelism() == 1 and the ConcurrencyLayer limit is 1)
   control    didOpen then one request
   two-changes  a didChange with two full-text content changes (the second is the final text)
+  defset-include  a.td has `defset list<B> Xs = { include "inc.td" }`; the outline of a.td must
+             only carry ranges that denote, in a.td, the name they are labelled with
   dotdot     a.td contains `include "sub/../a.td"` (a self-include spelled through ".."),
              sub/ exists; didOpen a.td then one request
 Prints ANSWERED or HUNG.
@@ -72,6 +74,31 @@ def main():
         p.kill()
         import shutil; shutil.rmtree(d, ignore_errors=True)
         return 0 if ok else 1
+    if scenario == "defset-include":
+        open(os.path.join(d, "inc.td"), "w").write("\n\n\n\n      def Deep : B;\n")
+        text = 'class B;\ndefset list<B> Xs = {\n  include "inc.td"\n  def Near : B;\n}\n'
+        open_["params"]["textDocument"]["text"] = text
+        p.stdin.write(frame(open_) + frame(sym(2))); p.stdin.flush()
+        t0 = time.time()
+        while 2 not in got and time.time() - t0 < timeout:
+            time.sleep(0.05)
+        lines = text.split("\n")
+        bad = []
+        def walk(s_):
+            r = s_["selectionRange"]
+            l = lines[r["start"]["line"]] if r["start"]["line"] < len(lines) else None
+            t = l[r["start"]["character"]:r["end"]["character"]] if l is not None and r["start"]["line"] == r["end"]["line"] else None
+            print("  symbol %-6s at %d:%d-%d:%d denotes %r" % (s_["name"], r["start"]["line"], r["start"]["character"], r["end"]["line"], r["end"]["character"], t))
+            if t != s_["name"]:
+                bad.append(s_["name"])
+            for c in s_.get("children") or []:
+                walk(c)
+        for s_ in got.get(2, {}).get("result") or []:
+            walk(s_)
+        print("WRONG: ranges of %s do not denote those names in a.td" % bad if bad else "ok")
+        p.kill()
+        import shutil; shutil.rmtree(d, ignore_errors=True)
+        return 1 if bad else 0
     if scenario == "dotdot-buffer":
         # b.td is open with a buffer that differs from disk; a.td reaches it through ".."
         os.makedirs(os.path.join(d, "sub"), exist_ok=True)
